@@ -2,7 +2,9 @@ package main
 
 import (
 	"fmt"
+	"go/token"
 	"go/types"
+	"sort"
 
 	"golang.org/x/tools/go/ssa"
 )
@@ -210,6 +212,38 @@ func runC14(p *Prog, r *Report, tier string) {
 				r.Undecided("R-PERIOD", cs+": tick source", p.instrPos(si.sel), "tick channel "+tick+" is neither a Ticker nor a Timer channel")
 			}
 		}
+		// the period itself: the ticker of the refresher is built from the configured refresh timeout in seconds, the one of
+		// the connection checker from the configured (or default) check interval
+		role, want := "", []string{}
+		eachInstr(b, func(in ssa.Instruction) {
+			if c := callOf(in); c != nil && c.StaticCallee() != nil {
+				switch c.StaticCallee().Name() {
+				case "sendRefreshedTemplates":
+					role, want = "template refresh", []string{"field:pkg/exporter.ExporterInput.TempRefTimeout*1000000000"}
+				case "checkConnToCollector":
+					role, want = "connection check", []string{"const:positive default", "field:pkg/exporter.ExporterInput.CheckConnInterval*1"}
+				}
+			}
+		})
+		eachInstr(b, func(in ssa.Instruction) {
+			c, ok := in.(*ssa.Call)
+			if !ok || calleeName(&c.Call) != "time.NewTicker" {
+				return
+			}
+			if role == "" {
+				r.Undecided("R-PERIOD.value", fnKey(b)+": ticker period", p.instrPos(in), "a background goroutine that is neither the refresher nor the connection checker")
+				return
+			}
+			leaves := map[string]bool{}
+			okL := p.periodLeaves(c.Call.Args[0], 1, leaves, 0)
+			var got []string
+			for k := range leaves {
+				got = append(got, k)
+			}
+			sort.Strings(got)
+			r.Check(okL && fmt.Sprint(got) == fmt.Sprint(want), "R-PERIOD.value", fnKey(b)+": ticker period ("+role+")", p.instrPos(in), fmt.Sprint(got),
+				fmt.Sprintf("the %s ticker is built from %v, expected %v: the interval the caller configured is not the interval that is used", role, got, want), true)
+		})
 		// failure => internal close
 		callsClose := false
 		eachInstr(b, func(in ssa.Instruction) {
@@ -223,4 +257,75 @@ func runC14(p *Prog, r *Report, tier string) {
 		r.Check(callsClose, "R-CLOSE.on-failure", fmt.Sprintf("%s (background goroutine %d): failure path", fnKey(b), i+1), p.pos(b.Pos()),
 			"calls the internal close and leaves the loop", "the goroutine never calls the internal close (or keeps looping after it): a failed check/refresh goes unnoticed by later sends", true)
 	}
+}
+
+// periodLeaves collects what a duration expression is built from: "const:<ns>" and "field:<T.f>*<multiplier>" leaves,
+// through conversions, multiplication by constants, phis and captured variables. false if something else is met.
+func (p *Prog) periodLeaves(v ssa.Value, mul int64, out map[string]bool, depth int) bool {
+	if depth > 12 {
+		return false
+	}
+	v = stripChange(v)
+	switch x := v.(type) {
+	case *ssa.Const:
+		if c, ok := constInt(x); ok {
+			if c*mul > 0 {
+				out["const:positive default"] = true
+			} else {
+				out[fmt.Sprintf("const:%d", c*mul)] = true
+			}
+			return true
+		}
+		return false
+	case *ssa.Convert:
+		return p.periodLeaves(x.X, mul, out, depth+1)
+	case *ssa.BinOp:
+		if x.Op == token.MUL {
+			if c, ok := constInt(x.Y); ok {
+				return p.periodLeaves(x.X, mul*c, out, depth+1)
+			}
+			if c, ok := constInt(x.X); ok {
+				return p.periodLeaves(x.Y, mul*c, out, depth+1)
+			}
+		}
+		return false
+	case *ssa.Phi:
+		for _, e := range x.Edges {
+			if !p.periodLeaves(e, mul, out, depth+1) {
+				return false
+			}
+		}
+		return true
+	case *ssa.FreeVar:
+		o := p.origin(x)
+		if o == ssa.Value(x) {
+			return false
+		}
+		return p.periodLeaves(o, mul, out, depth+1)
+	case *ssa.UnOp:
+		if x.Op != token.MUL {
+			return false
+		}
+		if tn, fn, _, ok := loadedField(x); ok {
+			out[fmt.Sprintf("field:%s.%s*%d", tn, fn, mul)] = true
+			return true
+		}
+		// a local / captured variable cell: every value stored into it
+		cell := p.origin(x.X)
+		al, ok := cell.(*ssa.Alloc)
+		if !ok {
+			return false
+		}
+		stores, okAll := cellStores(al, 0)
+		if !okAll || len(stores) == 0 {
+			return false
+		}
+		for _, st := range stores {
+			if !p.periodLeaves(st.Val, mul, out, depth+1) {
+				return false
+			}
+		}
+		return true
+	}
+	return false
 }
